@@ -272,6 +272,11 @@ pub fn segment_bytes(deltas: &[ReplicationDelta]) -> Vec<u8> {
 
 /// Build the layout in a fresh store with the real writers; returns the store.
 pub fn build_store(layout: &Layout) -> VObjStore {
+    build_store_prefix(layout, usize::MAX)
+}
+
+/// ... with only the first `first_segments` segments of the layout (the rest can be appended later).
+pub fn build_store_prefix(layout: &Layout, first_segments: usize) -> VObjStore {
     let store = VObjStore::new();
     let mut manifest = Manifest::new(1);
     let mut next_id = 0u64;
@@ -286,7 +291,7 @@ pub fn build_store(layout: &Layout) -> VObjStore {
         next_id = 1;
         manifest.next_segment_id = 1;
     }
-    for seg in &layout.segments {
+    for seg in layout.segments.iter().take(first_segments) {
         let deltas: Vec<ReplicationDelta> = seg.iter().map(|u| u.delta()).collect();
         let bytes = segment_bytes(&deltas);
         let key = format!("{PREFIX}/segments/segment-{:08}.seg", next_id);
@@ -305,6 +310,27 @@ pub fn build_store(layout: &Layout) -> VObjStore {
     store.clear_log();
     store.reset_call_counter();
     store
+}
+
+/// What a flush does to the store, with the real writers: one more segment object and its manifest entry
+/// (id allocated from the manifest as it is now).
+pub fn append_segment(store: &VObjStore, seg: &[Upd]) {
+    let mm = ManifestManager::new(store.clone(), PREFIX);
+    let mut manifest = block_on(mm.load()).expect("manifest load");
+    let id = manifest.allocate_segment_id();
+    let deltas: Vec<ReplicationDelta> = seg.iter().map(|u| u.delta()).collect();
+    let bytes = segment_bytes(&deltas);
+    let key = format!("{PREFIX}/segments/segment-{:08}.seg", id);
+    block_on(redis_sim::streaming::ObjectStore::put(store, &key, &bytes)).unwrap();
+    manifest.add_segment(SegmentInfo {
+        id,
+        key,
+        record_count: deltas.len() as u32,
+        size_bytes: bytes.len() as u64,
+        min_timestamp: seg.iter().map(|u| u.time).min().unwrap_or(0),
+        max_timestamp: seg.iter().map(|u| u.time).max().unwrap_or(0),
+    });
+    block_on(mm.save(&manifest)).expect("manifest save");
 }
 
 /// Recover with the real RecoveryManager and fold the result the way a node applies it
